@@ -103,3 +103,12 @@ Theorem C17_resolve_verdict_permutation : forall its its',
   vclass (resolve_schema_extensions its) = vclass (resolve_schema_extensions its').
 Proof. exact resolve_verdict_permutation. Qed.
 Print Assumptions C17_resolve_verdict_permutation.
+
+(** def_permutation at the level of the emitted declarations: a permuted document yields the same
+    declarations up to their order and the order of union members (and fails iff the original fails) *)
+Theorem C17_skeleton_def_permutation : forall (pi : oracle) (o : hmap scfg) (doc doc' : list item),
+  is_oracle pi -> Permutation doc doc' -> NoDup (map d_name (type_defs doc)) ->
+  forall l, print_skeleton pi o doc = Ok l ->
+  exists l', print_skeleton pi o doc' = Ok l' /\ decls_equiv l l'.
+Proof. exact print_skeleton_permutation. Qed.
+Print Assumptions C17_skeleton_def_permutation.
